@@ -295,9 +295,12 @@ Targets(T) ==
                                       t \in Targets(T.fs[i].t)} : i \in DOMAIN T.fs}
                   \* shape variants of the widened struct
                   rev    == StructOf(Reverse(wide.fs))
+                  \* the same members in the other order: the wire layouts of source and target may then be
+                  \* the same string of member types (B int32, A int32 -> A int32, B int32) - only the names tell
+                  revSame == StructOf(Reverse(T.fs))
                   recase == StructOf([i \in DOMAIN T.fs |-> Fld(CaseVariant[T.fs[i].n], T.fs[i].t)])
                   extraF == StructOf(<<Fld("Extra", K("string"))>> \o wide.fs \o <<Fld("X", Slice(K("int8")))>>)
-              IN {same, wide, rev, recase, extraF} \cup single
+              IN {same, wide, rev, revSame, recase, extraF} \cup single
 
 (* targets that clash somewhere *)
 OtherClass(T) ==
